@@ -98,10 +98,21 @@ func run(rt *rapid.T) {
 		m.Logf("checkpoint = CopyRoot(%d)", copyLevel)
 	}
 	// the batch of changes
+	usedPair := false
 	var kinds []string
 	for i := gen.Uniform(rt, 0, 6, "nchanges"); i > 0; i-- {
 		es := wmkit.Entries(m.Model)
-		switch gen.Pick(rt, []string{"new-key", "change-value", "earlier-value", "same-value", "del-readd", "delete"}, "ckind") {
+		switch gen.Pick(rt, []string{"new-key", "change-value", "earlier-value", "same-value", "del-readd", "delete", "hash-prefix-pair"}, "ckind") {
+		case "hash-prefix-pair":
+			// two new entries whose value records hash to the same first four bytes
+			if a, b := wmkit.CollidingValues(); a != nil && unique && !usedPair && len(pool) >= 2 {
+				usedPair = true
+				i := gen.Uniform(rt, 0, len(pool)-2, "pairki")
+				m.Logf("(values with a common 4-byte hash prefix)")
+				m.Update(pool[i], append([]byte(nil), a...))
+				m.Update(pool[i+1], append([]byte(nil), b...))
+				kinds = append(kinds, "new-or-changed")
+			}
 		case "earlier-value":
 			if m.Revert(rt, "crevert") {
 				kinds = append(kinds, "new-or-changed")
@@ -334,4 +345,75 @@ func first(xs []string) []string {
 		return xs[:2]
 	}
 	return xs
+}
+
+// A dense sweep over the size of the rolled-back commit: 1..140 new keys on a small checkpoint, so that the number of
+// nodes the commit creates takes nearly every value from a handful to about 350 (multiples of 100, of 128, of 255...).
+func TestRollbackSizeSweep(t *testing.T) {
+	ev.Guard(t, "TestRollbackSizeSweep", func() {
+		seed := ev.SeedFor("TestRollbackSizeSweep")
+		seen := map[int]bool{}
+		for nnew := 1; nnew <= 140; nnew++ {
+			for _, entry := range []string{"Rollback", "RollbackTrie"} {
+				db := memkv.New()
+				var m *wmkit.Machine
+				m = wmkit.New(db, func(f string, a ...any) {
+					t.Fatalf("%d new keys, %s: %s", nnew, entry, fmt.Sprintf(f, a...))
+				})
+				key := func(i int) []byte {
+					h := sha256.Sum256([]byte(fmt.Sprintf("sweep/%d/%d", seed, i)))
+					return h[:]
+				}
+				for i := 0; i < 8; i++ {
+					m.Update(key(i), []byte{byte(i), 1, byte(i), 0x11})
+				}
+				level := []int{0, 1, 2, 64}[(nnew+int(seed%4))%4]
+				m.Commit(level)
+				cpRoot, cpWeight := append([]byte(nil), m.T.Root()...), m.T.Weight()
+				cpModel := map[string]refwmpt.Entry{}
+				for k, v := range m.Model {
+					cpModel[k] = v
+				}
+				m.T.SaveRoot()
+				for i := 0; i < nnew; i++ {
+					m.Update(key(100+i), []byte{byte(i), 2, byte(i >> 8), byte(nnew)})
+				}
+				before := keysOf(db)
+				m.Commit(level)
+				created := 0
+				after := keysOf(db)
+				for k := range after {
+					if !before[k] {
+						created++
+					}
+				}
+				seen[created] = true
+				if entry == "Rollback" {
+					m.T.Rollback()
+				} else {
+					m.T.RollbackTrie(wmpt.NewHashNode(append([]byte(nil), cpRoot...), cpWeight))
+				}
+				if !bytes.Equal(m.T.Root(), cpRoot) || m.T.Weight() != cpWeight {
+					t.Fatalf("%d new keys (%d created nodes), %s: root/weight after the rollback differ from the checkpoint", nnew, created, entry)
+				}
+				left := 0
+				for k := range after {
+					if !before[k] && db.Has([]byte(k)) {
+						left++
+					}
+				}
+				if left > 0 {
+					t.Fatalf("%d new keys, %s: the rolled-back commit created %d nodes, %d of them are still in storage", nnew, entry, created, left)
+				}
+				wmkit.ObserveTrie(wmkit.Reopened(db, cpRoot, cpWeight), cpModel, nil, m.Fail, "trie reopened at the checkpoint")
+			}
+		}
+		hundreds := 0
+		for c := range seen {
+			if c%100 == 0 {
+				hundreds++
+			}
+		}
+		ev.Case(fmt.Sprintf("sweep/%d sizes", len(seen)), true, "rollback-size-sweep", fmt.Sprintf("created-counts-that-are-multiples-of-100:%d", hundreds))
+	})
 }
